@@ -63,6 +63,19 @@ func vC10VDec(p VideoPackager, body []byte) (f *VideoFrame, obs vSx) {
 	return
 }
 
+// vC10Spare hands b to the library the way a zero-copy caller would: as a sub-slice, with 0..8
+// bytes of spare capacity, of a larger buffer whose remaining bytes hold a sentinel.  The library
+// may only read that memory: the whole backing array is compared with its snapshot afterwards.
+func vC10Spare(b []byte) (sl, backing, snapshot []byte) {
+	extra := (len(b)*7 + 3) % 9
+	backing = make([]byte, len(b)+extra)
+	copy(backing, b)
+	for i := len(b); i < len(backing); i++ {
+		backing[i] = 0xA5
+	}
+	return backing[:len(b)], backing, append([]byte{}, backing...)
+}
+
 func vC10IsPanic(o vSx) bool { return o.isList() && len(o.l) == 1 && o.l[0].i64() == 2 }
 
 // the frames the round-trip statement quantifies over (the guard of c10_audio_rt, written out):
@@ -116,7 +129,14 @@ func vC10Run(k *vKit, c vSx) (obs vSx, fo, fd string, nontrivial bool) {
 		}
 		f := &AudioFrame{SoundFormat: AudioCodec(c.l[1].u64()), SoundRate: AudioSamplingRate(c.l[2].u64()),
 			SoundSize: AudioSampleBits(c.l[3].u64()), SoundType: AudioChannels(c.l[4].u64()),
-			Trait: AudioFrameTrait(c.l[5].u64()), AudioLevel: uint16(c.l[6].u64()), Raw: c.l[7].b}
+			Trait: AudioFrameTrait(c.l[5].u64()), AudioLevel: uint16(c.l[6].u64())}
+		raw, rawBacking, rawSnap := vC10Spare(c.l[7].b)
+		f.Raw = raw
+		defer func() {
+			if !bytes.Equal(rawBacking, rawSnap) {
+				fo, fd = "caller-memory", fmt.Sprintf("audio Encode/Decode modified the memory of frame.Raw (len %d cap %d)", len(raw), cap(raw))
+			}
+		}()
 		var enc []byte
 		eo := vGuard(func() vSx {
 			b, err := ap.Encode(f)
@@ -158,7 +178,14 @@ func vC10Run(k *vKit, c vSx) (obs vSx, fo, fd string, nontrivial bool) {
 			return vL(vZ(-1)), "", "", false
 		}
 		f := &VideoFrame{CodecID: VideoCodec(c.l[1].u64()), FrameType: VideoFrameType(c.l[2].u64()),
-			Trait: VideoFrameTrait(c.l[3].u64()), CTS: int32(c.l[4].i64()), Raw: c.l[5].b}
+			Trait: VideoFrameTrait(c.l[3].u64()), CTS: int32(c.l[4].i64())}
+		raw, rawBacking, rawSnap := vC10Spare(c.l[5].b)
+		f.Raw = raw
+		defer func() {
+			if !bytes.Equal(rawBacking, rawSnap) {
+				fo, fd = "caller-memory", fmt.Sprintf("video Encode/Decode modified the memory of frame.Raw (len %d cap %d)", len(raw), cap(raw))
+			}
+		}()
 		var enc []byte
 		eo := vGuard(func() vSx {
 			b, err := vp.Encode(f)
@@ -193,7 +220,12 @@ func vC10Run(k *vKit, c vSx) (obs vSx, fo, fd string, nontrivial bool) {
 		nontrivial = f.Trait != 0 || f.CTS != 0
 		return vL(eo, do), fo, fd, nontrivial
 	case 3:
-		body := c.l[1].b
+		body, bodyBacking, bodySnap := vC10Spare(c.l[1].b)
+		defer func() {
+			if !bytes.Equal(bodyBacking, bodySnap) {
+				fo, fd = "caller-memory", fmt.Sprintf("audio Decode/Encode modified the caller's tag buffer (len %d cap %d)", len(body), cap(body))
+			}
+		}()
 		g, do := vC10ADec(ap, body)
 		if vC10IsPanic(do) {
 			bad("no-panic", "audio Decode panicked")
@@ -233,7 +265,12 @@ func vC10Run(k *vKit, c vSx) (obs vSx, fo, fd string, nontrivial bool) {
 		}
 		return vL(do, vB(re)), fo, fd, nontrivial
 	case 4:
-		body := c.l[1].b
+		body, bodyBacking, bodySnap := vC10Spare(c.l[1].b)
+		defer func() {
+			if !bytes.Equal(bodyBacking, bodySnap) {
+				fo, fd = "caller-memory", fmt.Sprintf("video Decode/Encode modified the caller's tag buffer (len %d cap %d)", len(body), cap(body))
+			}
+		}()
 		g, do := vC10VDec(vp, body)
 		if vC10IsPanic(do) {
 			bad("no-panic", "video Decode panicked")
@@ -306,6 +343,13 @@ func vC10Run(k *vKit, c vSx) (obs vSx, fo, fd string, nontrivial bool) {
 				}
 				f := mk()
 				kt.af = mk()
+				raw, rawBacking, rawSnap := vC10Spare(f.Raw)
+				f.Raw = raw
+				defer func(i int) {
+					if !kt.mut && !bytes.Equal(rawBacking, rawSnap) {
+						bad("caller-memory", fmt.Sprintf("the memory of the Raw given to Encode call %d was modified", i))
+					}
+				}(len(hist))
 				if o := vGuard(func() vSx {
 					b, err := ap.Encode(f)
 					if err != nil {
@@ -317,6 +361,9 @@ func vC10Run(k *vKit, c vSx) (obs vSx, fo, fd string, nontrivial bool) {
 					bad("no-panic", "audio Encode failed or panicked")
 				}
 				kt.snap = append([]byte{}, kt.enc...)
+				if !bytes.Equal(rawBacking, rawSnap) {
+					bad("caller-memory", fmt.Sprintf("audio Encode call %d wrote into the memory of frame.Raw (len %d cap %d)", len(hist), len(raw), cap(raw)))
+				}
 				if kt.mut {
 					flipb(f.Raw)
 				}
@@ -334,6 +381,13 @@ func vC10Run(k *vKit, c vSx) (obs vSx, fo, fd string, nontrivial bool) {
 				}
 				f := mk()
 				kt.vf = mk()
+				raw, rawBacking, rawSnap := vC10Spare(f.Raw)
+				f.Raw = raw
+				defer func(i int) {
+					if !kt.mut && !bytes.Equal(rawBacking, rawSnap) {
+						bad("caller-memory", fmt.Sprintf("the memory of the Raw given to Encode call %d was modified", i))
+					}
+				}(len(hist))
 				if o := vGuard(func() vSx {
 					b, err := vp.Encode(f)
 					if err != nil {
@@ -345,14 +399,32 @@ func vC10Run(k *vKit, c vSx) (obs vSx, fo, fd string, nontrivial bool) {
 					bad("no-panic", "video Encode failed or panicked")
 				}
 				kt.snap = append([]byte{}, kt.enc...)
+				if !bytes.Equal(rawBacking, rawSnap) {
+					bad("caller-memory", fmt.Sprintf("video Encode call %d wrote into the memory of frame.Raw (len %d cap %d)", len(hist), len(raw), cap(raw)))
+				}
 				if kt.mut {
 					flipb(f.Raw)
 				}
 			case 3, 4:
 				kt.orig = op.l[1].b
-				kt.tag = append([]byte{}, kt.orig...)
+				tg, tagBacking, tagSnap := vC10Spare(kt.orig)
+				kt.tag = tg
 				if kt.kind == 3 {
 					kt.da, kt.dobs = vC10ADec(ap, kt.tag)
+				} else {
+					kt.dv, kt.dobs = vC10VDec(vp, kt.tag)
+				}
+				if !bytes.Equal(tagBacking, tagSnap) {
+					bad("caller-memory", fmt.Sprintf("Decode call %d wrote into the caller's tag buffer (len %d cap %d)", len(hist), len(tg), cap(tg)))
+				}
+				if !kt.mut {
+					defer func(i int) {
+						if !bytes.Equal(tagBacking, tagSnap) {
+							bad("caller-memory", fmt.Sprintf("the tag buffer given to Decode call %d was modified by a later call", i))
+						}
+					}(len(hist))
+				}
+				if kt.kind == 3 {
 					if kt.da != nil {
 						kt.rawLen = len(kt.da.Raw)
 						if kt.mut {
@@ -361,7 +433,6 @@ func vC10Run(k *vKit, c vSx) (obs vSx, fo, fd string, nontrivial bool) {
 						kt.dsnap = vOk(vC10AFrame(kt.da))
 					}
 				} else {
-					kt.dv, kt.dobs = vC10VDec(vp, kt.tag)
 					if kt.dv != nil {
 						kt.rawLen = len(kt.dv.Raw)
 						if kt.mut {
